@@ -74,6 +74,10 @@ func Generate(seed uint64, profile string) *Project {
 	nTypes := r.Range(1, 4)
 	if profile == "order" {
 		nTypes = r.Range(3, 7)
+		if r.Chance(1, 2) {
+			g.newAlias()
+			g.newAlias() // a base alias and (often) one declared on top of it
+		}
 	}
 	for i := 0; i < nTypes; i++ {
 		switch r.Intn(4) {
@@ -215,6 +219,29 @@ func Generate(seed uint64, profile string) *Project {
 		p.Controllers = append(p.Controllers, c)
 	}
 
+	if profile == "router" && r.Chance(1, 2) {
+		// a "slash twin": another controller whose prefix is the full path of an existing route and whose
+		// method route is "/", on the same verb: /api/items (A.GetItems) next to /api/items/ (X.Index)
+		var cands []Route
+		for _, rt := range p.Routes() {
+			ok := rt.Path != "/" && !strings.HasSuffix(rt.Path, "/") && !strings.Contains(rt.Ctrl.Route+rt.M.Route, "//")
+			for _, sg := range rt.Segs {
+				if IsParamSeg(sg) {
+					ok = false
+				}
+			}
+			if ok {
+				cands = append(cands, rt)
+			}
+		}
+		if len(cands) > 0 {
+			rt := Pick(r, cands)
+			x := Controller{Name: "CtlX", Pkg: rt.Ctrl.Pkg, File: "ctlx_f0.go", HasRoute: true, Route: rt.Path}
+			x.Methods = []Method{{Name: "XIndex", File: x.File, Verb: rt.M.Verb, Route: "/", Ret: "error"}}
+			p.Controllers = append(p.Controllers, x)
+		}
+	}
+
 	g.fixOverlaps()
 
 	// enforce only if ground truth says every route is secured
@@ -314,6 +341,16 @@ func (g *genState) newAlias() TypeRef {
 	g.nAlias++
 	pkg := g.typePkg()
 	a := Alias{Name: fmt.Sprintf("Alias%d", g.nAlias), Pkg: pkg, File: g.typeFile(pkg), Prim: Pick(g.r, []string{"string", "int", "int64", "float64", "bool", "uint16"})}
+	if g.profile == "order" && g.r.Chance(1, 2) {
+		// an alias declared on top of another alias (of the same package, or of a model package a controller
+		// package may import)
+		for _, b := range g.p.Aliases {
+			if b.Pkg == pkg || (strings.HasPrefix(pkg, "ctl") && strings.HasPrefix(b.Pkg, "mdl")) {
+				a.OfPkg, a.OfName, a.Prim = b.Pkg, b.Name, b.Prim
+				break
+			}
+		}
+	}
 	g.p.Aliases = append(g.p.Aliases, a)
 	return TypeRef{Kind: "alias", Prim: a.Prim, Pkg: a.Pkg, Name: a.Name}
 }
@@ -426,6 +463,9 @@ func (g *genState) pickNamed(pkg, kind string) (TypeRef, bool) {
 		}
 	case "alias":
 		for _, a := range g.p.Aliases {
+			if a.OfName != "" {
+				continue // gleece only accepts aliases of primitives as non-body parameters; alias-of-alias types appear in models
+			}
 			cands = append(cands, TypeRef{Kind: "alias", Prim: a.Prim, Pkg: a.Pkg, Name: a.Name})
 		}
 	case "struct":
@@ -673,10 +713,19 @@ func (g *genState) method(c *Controller, idx int, file string) Method {
 		m.Ret = "error"
 	default:
 		m.Ret = "value"
-		switch r.Intn(5) {
-		case 0:
+		var aliasOfAlias []TypeRef
+		for _, a := range g.p.Aliases {
+			if a.OfName != "" && visibleFrom(c.Pkg, TypeRef{Pkg: a.Pkg}) {
+				aliasOfAlias = append(aliasOfAlias, TypeRef{Kind: "alias", Prim: a.Prim, Pkg: a.Pkg, Name: a.Name})
+			}
+		}
+		switch k := r.Intn(5); {
+		case len(aliasOfAlias) > 0 && r.Chance(1, 3):
+			// an alias declared on top of another alias is only legal in models and results: make it reachable
+			m.RetType = Pick(r, aliasOfAlias)
+		case k == 0:
 			m.RetType = TypeRef{Kind: "prim", Prim: Pick(r, []string{"string", "int", "bool", "float64"})}
-		case 1:
+		case k == 1:
 			if e, ok := g.pickNamed(c.Pkg, "enum"); ok {
 				m.RetType = e
 				break
